@@ -83,6 +83,8 @@ struct FactoryState {
   int sources_alive = 0;
   int overlapping_source_reads = 0;
   std::vector<std::string> task_op;  // per task: the name argument of the load in progress ("" if none)
+  std::string wildcard_prefix;       // names starting with this (and not in the catalogue) are served wildcard_entry
+  CatEntry wildcard_entry;
 };
 extern FactoryState fac;
 void factory_reset(std::map<std::string, CatEntry>* cat, int ntasks);
